@@ -141,10 +141,15 @@ class Evaluator:
             if p[0] == "char":
                 return chr(p[1])
             raise Unrecognised(f"string pattern {p}")
-        if short in ("to_lowercase", "to_ascii_lowercase") and len(args) == 1:
+        if short == "to_lowercase" and len(args) == 1:
             return ("str", s0.lower())
-        if short in ("to_uppercase", "to_ascii_uppercase") and len(args) == 1:
+        if short == "to_uppercase" and len(args) == 1:
             return ("str", s0.upper())
+        if short in ("to_ascii_lowercase", "to_ascii_uppercase") and len(args) == 1:        # ASCII letters only
+            f_ = str.lower if short == "to_ascii_lowercase" else str.upper
+            return ("str", "".join(f_(c) if ord(c) < 128 else c for c in s0))
+        if short == "is_ascii" and len(args) == 1:
+            return ("bool", s0.isascii())
         if short in ("to_owned", "to_string", "as_ref", "as_str", "deref", "borrow", "clone", "trim") and len(args) == 1:
             return ("str", s0.strip()) if short == "trim" else args[0]
         if short == "len" and len(args) == 1:
